@@ -96,3 +96,46 @@ package pubsub
 //@ func (*validation).sendMsgBlocking
 //@   property C14
 //@   cancellable
+
+// Goroutine roots started by the library: each watches the lifetime context (its own context
+// parameter where it is started with the constructor's context or one derived from it) in every
+// blocking channel operation, so it ends when the instance is shut down.
+//@ func (*PubSub).handleNewPeer
+//@   property C14
+//@   cancellable ctx
+
+//@ func (*PubSub).handleNewPeerWithBackoff
+//@   property C14
+//@   cancellable ctx
+
+//@ func (*PubSub).handleSendingMessages
+//@   property C14
+//@   cancellable ctx
+
+//@ func (*discover).pollTimer
+//@   property C14
+//@   cancellable
+
+//@ func (*discover).discoverLoop
+//@   property C14
+//@   cancellable
+
+//@ func (*GossipSubRouter).connector
+//@   property C14
+//@   cancellable
+
+//@ func (*GossipSubRouter).heartbeatTimer
+//@   property C14
+//@   cancellable
+
+//@ func (*peerGater).background
+//@   property C14
+//@   cancellable ctx
+
+//@ func (*peerScore).background
+//@   property C14
+//@   cancellable ctx
+
+//@ func (*validation).validateWorker
+//@   property C14
+//@   cancellable
